@@ -7,23 +7,24 @@
 (*   after a refusal) | Complete{status} | Usable{ok}                          *)
 EXTENDS ClientLit, Json, IOUtils
 
-VARIABLE l
+VARIABLES l, stale
 
 Trace == ndJsonDeserialize(IOEnv.TRACE_FILE)
 
-TraceInit == Init /\ l = 1
+TraceInit == Init /\ l = 1 /\ stale = FALSE
 
 AllLegal(c, toks) == \A i \in 1..Len(toks) : LegalToken(c, toks[i])
 
 TraceNext ==
   /\ l <= Len(Trace)
   /\ l' = l + 1
+  /\ stale' = IF Trace[l].ev = "Case" THEN Trace[l].case.stale ELSE stale
   /\ LET r == Trace[l] IN
        \/ /\ r.ev = "Case"
           /\ cfg' = r.cfg /\ phase' = "idle" /\ wrote' = 0 /\ status' = "none" /\ alive' = TRUE
-       \/ /\ r.ev = "Send" /\ AllLegal(cfg, r.tokens)
+       \/ /\ r.ev = "Send" /\ AllLegal(Effective(cfg, stale), r.tokens)
           /\ IF r.sync THEN Announce ELSE (phase \in {"idle", "granted"} /\ phase' = "sent" /\ UNCHANGED <<cfg, wrote, status, alive>>)
-       \/ r.ev = "Rest" /\ AllLegal(cfg, r.tokens) /\ phase = "sent" /\ UNCHANGED vars
+       \/ r.ev = "Rest" /\ AllLegal(Effective(cfg, stale), r.tokens) /\ phase = "sent" /\ UNCHANGED vars
        \/ r.ev = "Grant" /\ ServerGrant
        \/ r.ev = "Refuse" /\ ServerRefuse
        \/ r.ev = "Payload" /\ WritePayload(r.n)
